@@ -4,6 +4,7 @@ Every case edits a scratch copy of /repo/jax2onnx by exact text replacement; if 
 longer present the case is reported STALE (the corpus, not the checker, needs updating).
 """
 
+UIF = "jax2onnx/user_interface.py"
 OPT = "jax2onnx/converter/ir_optimizations.py"
 
 CASES = []
@@ -210,6 +211,7 @@ benign("c01-benign-param-via-subscript", "C01", "jax2onnx/plugins/jax/lax/cumsum
 mutant("c01-conv-batch-groups-ignored", "C01", "jax2onnx/plugins/jax/lax/conv.py", '        batch_groups = int(params.get("batch_group_count", 1) or 1)\n', "        batch_groups = 1\n", expect="batch_group_count")
 
 # ----------------------------------------------------------------------------- C18
+mutant("c18-dtype-class-check-dropped", "C18", UIF, "        if expected_class != got_class:\n", "        if False:\n", expect="R-C18f")
 UIF = "jax2onnx/user_interface.py"
 multi("c18-session-cache-dict", "C18", "mutant", [(UIF, "def _run_allclose(\n", "_SESSION_CACHE: Dict[str, Any] = {}\n\n\ndef _run_allclose(\n"), (UIF, "    session = ort.InferenceSession(\n        model_path,\n        sess_options=sess_options,\n        providers=[\"CPUExecutionProvider\"],\n    )\n\n    # Prepare ORT inputs", "    if model_path not in _SESSION_CACHE:\n        _SESSION_CACHE[model_path] = ort.InferenceSession(\n            model_path,\n            sess_options=sess_options,\n            providers=[\"CPUExecutionProvider\"],\n        )\n    session = _SESSION_CACHE[model_path]\n\n    # Prepare ORT inputs")], expect="R-C18e")
 multi("c18-session-lru-cache-helper", "C18", "mutant", [(UIF, "def _run_allclose(\n", "@functools.lru_cache(maxsize=4)\ndef _cached_session(model_path: str, mtime: float) -> Any:\n    ort = cast(Any, importlib.import_module(\"onnxruntime\"))\n    return ort.InferenceSession(model_path, providers=[\"CPUExecutionProvider\"])\n\n\ndef _run_allclose(\n"), (UIF, "    session = ort.InferenceSession(\n        model_path,\n        sess_options=sess_options,\n        providers=[\"CPUExecutionProvider\"],\n    )\n\n    # Prepare ORT inputs", "    session = _cached_session(model_path, os.path.getmtime(model_path))\n\n    # Prepare ORT inputs"), (UIF, "import importlib\n", "import functools\nimport importlib\n")], expect="R-C18e")
@@ -228,6 +230,7 @@ mutant("c18-x64-context-dropped", "C18", UIF, "    with _temporary_x64(enable_do
 benign("c18-benign-eq-form", "C18", UIF, "        if expected_arr.shape != got_arr.shape:", "        if got_arr.shape != expected_arr.shape:")
 
 # ----------------------------------------------------------------------------- C09
+mutant("c09-constants-widen-float16-too", "C09", "jax2onnx/converter/ir_context.py", "        if self.builder.enable_double_precision and arr.dtype == np.float32:", "        if self.builder.enable_double_precision and np.issubdtype(arr.dtype, np.floating) and arr.dtype != np.float64:", expect="R-C09f")
 mutant("c09-manual-x64-save-restore", "C09", UIF, "    with _jax_x64_scope(enabled):\n        yield\n", "    prev = jax.config.jax_enable_x64\n    try:\n        if enabled != prev:\n            jax.config.update(\"jax_enable_x64\", enabled)\n        yield\n    finally:\n        if jax.config.jax_enable_x64 != prev:\n            jax.config.update(\"jax_enable_x64\", prev)\n", expect="global-write-context-read")
 mutant("c09-default-float64-constant", "C09", "jax2onnx/plugins/jax/lax/rsqrt.py", "            np.asarray(1.0, dtype=np_dtype),", "            np.asarray(1.0),", expect="bind_const_for_var")
 mutant("c09-default-float64-half", "C09", "jax2onnx/plugins/jax/lax/round.py", "np.asarray(0.5, dtype=np_dtype)", "np.asarray(0.5)", expect="round.py")
@@ -242,6 +245,8 @@ benign("c09-benign-positional-dtype", "C09", "jax2onnx/plugins/jax/lax/round.py"
 benign("c09-benign-astype", "C09", "jax2onnx/plugins/jax/lax/round.py", "np.asarray(0.5, dtype=np_dtype)", "np.asarray(0.5).astype(np_dtype)")
 
 # ----------------------------------------------------------------------------- C15
+mutant("c15-export-mode-returned-unnormalised", "C15", UIF, "def _normalize_export_mode(value: str) -> ExportMode:\n    mode = value.lower().strip()\n    if mode not in _VALID_EXPORT_MODES:", "def _normalize_export_mode(value: str) -> ExportMode:\n    mode = value.strip()\n    if mode.lower() not in _VALID_EXPORT_MODES:", expect="R-C15d")
+benign("c15-benign-export-mode-casefold", "C15", UIF, "def _normalize_export_mode(value: str) -> ExportMode:\n    mode = value.lower().strip()", "def _normalize_export_mode(value: str) -> ExportMode:\n    mode = value.strip().casefold()")
 mutant("c15-naming-after-ir-return", "C15", UIF, "    _apply_custom_io_names_on_ir(\n        result,\n        input_names=normalized_input_names,\n        output_names=normalized_output_names,\n        positional_input_count=len(normalized_inputs),\n    )\n    if normalized_mode == \"ir\":\n        return result\n",
        "    if normalized_mode == \"ir\":\n        return result\n    _apply_custom_io_names_on_ir(\n        result,\n        input_names=normalized_input_names,\n        output_names=normalized_output_names,\n        positional_input_count=len(normalized_inputs),\n    )\n", expect="_apply_custom_io_names_on_ir")
 mutant("c15-params-only-for-proto", "C15", UIF, "    _materialize_input_params_on_ir(result, param_map)\n", "    if normalized_mode != \"ir\":\n        _materialize_input_params_on_ir(result, param_map)\n", expect="_materialize_input_params_on_ir")
@@ -341,6 +346,7 @@ mutant("c16-dim-origin-missing-tolerated", "C16", LDF, "        if origin is Non
 benign("c16-benign-narrow-handler", "C16", "jax2onnx/plugins/jax/lax/tanh.py", "        result = ctx.builder.Tanh(x_val, _outputs=[desired_name])", "        try:\n            result = ctx.builder.Tanh(x_val, _outputs=[desired_name])\n        except AttributeError:\n            raise")
 
 # ----------------------------------------------------------------------------- C03
+mutant("c03-function-output-aliases-input", "C03", "jax2onnx/plugins/plugin_system.py", "                if id(out_val) not in child_input_ids:\n                    continue\n", "                continue\n", expect="R-C03h")
 CFU = "jax2onnx/plugins/jax/lax/_control_flow_utils.py"
 mutant("c03-subgraph-shares-sym-origin-table", "C03", CFU, "    child_ctx_any._sym_origin = dict(getattr(parent_ctx, \"_sym_origin\", {}))", "    child_ctx_any._sym_origin = getattr(parent_ctx, \"_sym_origin\", {})", expect="R-C03f")
 benign("c03-benign-subgraph-sym-origin-copy-method", "C03", CFU, "    child_ctx_any._sym_origin = dict(getattr(parent_ctx, \"_sym_origin\", {}))", "    child_ctx_any._sym_origin = getattr(parent_ctx, \"_sym_origin\", {}).copy()")
